@@ -586,6 +586,33 @@ def build():
         raise GenError("Opt::push_raw_option: unrecognised length check %r" % arg)
     one(r"code\.compose\(&mut self\.octets\)\?;\s*option_len\.compose\(&mut self\.octets\)\?;\s*op\(&mut self\.octets\)\?;", pro, "Opt::push_raw_option framing")
     one(r"if len > usize::from\(u16::MAX\) \{\s*Err\(Self\(\(\)\)\)", fn_body(optsrc, "check_len", after="impl LongOptData"), "LongOptData::check_len bound")
+    # TxtBuilder: every append checks the octets written so far plus the octets it is about to
+    # write (the slice; for a whole character string its length octet and its content) against
+    # LongRecordData::check_len's bound
+    txtsrc = strip_comments(read("src/rdata/rfc1035/txt.rs"))
+    tb_after = "impl<Builder: OctetsBuilder + AsRef<[u8]> + AsMut<[u8]>> TxtBuilder<Builder>"
+    def txt_append_check(fname):
+        body = fn_body(txtsrc, fname, after=tb_after)
+        m = one(r"LongRecordData::check_append_len\((.*?)\)\?;", " ".join(body.split()), "TxtBuilder::%s length check" % fname)
+        return " ".join(m.group(1).split()), " ".join(body.split())
+    a_slice, b_slice = txt_append_check("builder_append_slice")
+    if a_slice != "self.builder.as_ref().len(), slice.len(),":
+        raise GenError("TxtBuilder::builder_append_slice: unrecognised length check %r" % a_slice)
+    one(r"\)\?; self\.builder\.append_slice\(slice\)\?; Ok\(\(\)\)$", b_slice, "TxtBuilder::builder_append_slice writes the slice it checked")
+    a_cs, b_cs = txt_append_check("append_charstr")
+    if a_cs == "self.builder.as_ref().len(), usize::from(s.compose_len()),":
+        txt_cs_full = True
+    elif a_cs in ("self.builder.as_ref().len(), s.len(),", "self.builder.as_ref().len(), s.as_slice().len(),"):
+        txt_cs_full = False
+    else:
+        raise GenError("TxtBuilder::append_charstr: unrecognised length check %r" % a_cs)
+    one(r"^self\.close_charstr\(\); LongRecordData::check_append_len\(", b_cs, "TxtBuilder::append_charstr closes the open string before the check")
+    one(r"\)\?; s\.compose\(&mut self\.builder\)\?; Ok\(\(\)\)$", b_cs, "TxtBuilder::append_charstr writes the string it checked")
+    bsrc = strip_comments(read("src/base/rdata.rs"))
+    one(r"if len > usize::from\(u16::MAX\) \{\s*Err\(Self\(\(\)\)\)", fn_body(bsrc, "check_len", after="impl LongRecordData"), "LongRecordData::check_len bound")
+    one(r"^Self::check_len\(len\.checked_add\(extra_len\)\.ok_or\(Self\(\(\)\)\)\?\)$", " ".join(fn_body(bsrc, "check_append_len", after="impl LongRecordData").split()), "LongRecordData::check_append_len")
+    if sum(1 for _ in re.finditer(r"self\.builder\s*\.append_slice\(|compose\(&mut self\.builder\)", fn_body(txtsrc, "append_slice", after=tb_after) + fn_body(txtsrc, "append_u8", after=tb_after))) != 0:
+        raise GenError("TxtBuilder::append_slice / append_u8 write to the builder without the length check")
     # constants of the structural checks (type bitmap, SVCB parameters, EDNS option shapes)
     dn = strip_comments(read("src/rdata/dnssec.rs"))
     fo = fn_body(dn, "from_octets", after="impl<Octs> RtypeBitmap<Octs>")
@@ -704,6 +731,8 @@ def build():
     L.append(("check_consts_src", "list N", nl(check_consts)))
     L.append(("ipseckey_checks_consumed", "bool", b(ipseckey_consumed)))
     L.append(("canonical_helpers_lower_all_labels", "bool", "true"))
+    L.append(("txt_limit_src", "N", "65535%N"))
+    L.append(("txt_charstr_check_counts_length_octet", "bool", b(txt_cs_full)))
     L.append(("ipseckey_src", "list (N * schema)",
               "[" + "; ".join("(%d%%N, mkS [%s] None false (PIpseckey %d%%N))" % (g, "; ".join(["U8", "U8", "U8"] + gw + ["Rest"]), g)
                               for g, gw in ips_rows) + "]"))
